@@ -328,7 +328,7 @@ func randRelData(r *rng, sc schemaSpec) map[string][]string {
 
 func randDoc(r *rng) docSpec {
 	sc := docSchema(r)
-	d := docSpec{sc: sc, prepath: pick(r, []string{"", "/", "https://example.org", "https://example.org/api/"})}
+	d := docSpec{sc: sc, prepath: pick(r, []string{"", "/", "https://example.org", "https://example.org/api/", "https://example.org/relationships/v1"})}
 	d.dataKind = pick(r, []string{"nil", "resource", "resource", "soft-collection", "wrapper-collection", "resources", "resources", "identifier", "identifiers", "nil-identifiers"})
 	tn := pick(r, []string{"alltypes", "small", "other"})
 	d.urlFrags = []string{tn}
